@@ -81,13 +81,60 @@ var maxTime = time.Unix(0, 1<<63-1)
 // NextFireTime returns the next time at which the CronTrigger is scheduled to fire.
 func (ct *CronTrigger) NextFireTime(prev int64) (int64, error) {
 	prevTime := time.Unix(prev/int64(time.Second), 0).In(ct.location)
-	// build a CronStateMachine and run once
-	csm := newCSMFromFields(prevTime, ct.fields)
-	nextDateTime, ok := csm.NextTriggerTime(prevTime.Location())
-	if !ok || !nextDateTime.After(prevTime) || nextDateTime.After(maxTime) {
-		return 0, ErrTriggerExpired
+	// the schedule is evaluated on the wall clock of the trigger's location
+	year, month, day := prevTime.Date()
+	hour, minute, second := prevTime.Clock()
+	wallClock := time.Date(year, month, day, hour, minute, second, 0, time.UTC)
+	for {
+		// build a CronStateMachine and run once
+		csm := newCSMFromFields(wallClock, ct.fields)
+		var ok bool
+		wallClock, ok = csm.NextTriggerTime(time.UTC)
+		if !ok {
+			return 0, ErrTriggerExpired
+		}
+		nextDateTime, ok := firstAfter(wallClock, ct.location, prevTime)
+		if !ok {
+			continue // skipped or repeated by a time zone transition
+		}
+		if nextDateTime.After(maxTime) {
+			return 0, ErrTriggerExpired
+		}
+		return nextDateTime.UnixNano(), nil
 	}
-	return nextDateTime.UnixNano(), nil
+}
+
+// firstAfter returns the first instant after prev at which the wall clock in
+// the given location reads wallClock, if there is one.
+func firstAfter(wallClock time.Time, loc *time.Location, prev time.Time) (time.Time, bool) {
+	year, month, day := wallClock.Date()
+	hour, minute, second := wallClock.Clock()
+	t := time.Date(year, month, day, hour, minute, second, 0, loc)
+	// a wall clock reading repeated by a transition occurs in adjacent zones
+	_, offset := t.Zone()
+	start, end := t.ZoneBounds()
+	candidates := []time.Time{t}
+	if !start.IsZero() {
+		_, before := start.Add(-time.Second).Zone()
+		candidates = append(candidates, t.Add(time.Duration(offset-before)*time.Second))
+	}
+	if !end.IsZero() {
+		_, after := end.Zone()
+		candidates = append(candidates, t.Add(time.Duration(offset-after)*time.Second))
+	}
+	var first time.Time
+	found := false
+	for _, c := range candidates {
+		y, m, d := c.Date()
+		hh, mm, ss := c.Clock()
+		if y != year || m != month || d != day || hh != hour || mm != minute || ss != second {
+			continue // not the same wall clock reading
+		}
+		if c.After(prev) && (!found || c.Before(first)) {
+			first, found = c, true
+		}
+	}
+	return first, found
 }
 
 // Description returns the description of the cron trigger.
